@@ -128,12 +128,13 @@ def run_case(case, workdir):
                 continue
             if deep:
                 one = ref.strain([field]).covering(limit=L)[..., 0]
-            for dtype in ("float64", "float32"):
+            # (the VALUE of --dtype: NumPy's other spellings of the two types for the first field without a limit)
+            for dtype in (("float64", "float32") + (("float", "double", "single", "f4", "<f8") if (fi == 0 and limit is None and not deep) else ())):
                 if deep and dtype != ("float32" if limit is None else "float64"):
                     continue
                 if fi > 0 and dtype == "float32" and limit is not None:
                     continue
-                for default_out in ((False, True) if (fi == 0 and limit is None) else (False,)):
+                for default_out in ((False, True) if (fi == 0 and limit is None and dtype in ("float64", "float32")) else (False,)):
                     k += 1
                     outfile = os.path.join(workdir, "grid%d.npy" % k)
                     argv = ["whip", "-v", field, "-d", dtype, "-y"]
